@@ -6,9 +6,12 @@ import (
 	"regexp"
 	"strconv"
 	"strings"
+	"unicode"
+	"unicode/utf8"
 
 	"github.com/ajitpratap0/GoSQLX/pkg/errors"
 	"github.com/ajitpratap0/GoSQLX/pkg/gosqlx"
+	"github.com/ajitpratap0/GoSQLX/pkg/linter"
 	"github.com/ajitpratap0/GoSQLX/pkg/sql/keywords"
 	"github.com/ajitpratap0/GoSQLX/pkg/sql/parser"
 )
@@ -699,10 +702,16 @@ func (h *Handler) handleFormatting(params json.RawMessage) ([]TextEdit, error) {
 	}, nil
 }
 
-// formatSQL provides basic SQL formatting
+// formatSQL provides basic SQL formatting.
+//
+// Only the layout of code is touched: the content of string literals, quoted identifiers
+// and comments is kept byte for byte. A line that begins inside a multi-line literal or
+// block comment is copied as it is, and white space that ends a line inside such a
+// construct belongs to it.
 func formatSQL(sql string, opts FormattingOptions) string {
 	// Basic SQL formatter - normalize whitespace and keyword casing
 	lines := strings.Split(sql, "\n")
+	lexMap := linter.LexMap(sql)
 	var result []string
 
 	indent := ""
@@ -713,8 +722,18 @@ func formatSQL(sql string, opts FormattingOptions) string {
 	}
 
 	currentIndent := ""
+	off := 0
 	for _, line := range lines {
-		trimmed := strings.TrimSpace(line)
+		lineMap := lexMap[off : off+len(line)]
+		startsInCode := linter.LineStartsInCode(lexMap, off)
+		off += len(line) + 1
+		if !startsInCode {
+			// continuation of a multi-line literal or block comment
+			result = append(result, line)
+			continue
+		}
+
+		trimmed := trimCodeSpace(line, lineMap)
 		if trimmed == "" {
 			continue
 		}
@@ -758,11 +777,31 @@ func formatSQL(sql string, opts FormattingOptions) string {
 
 	formatted := strings.Join(result, "\n")
 
-	if opts.InsertFinalNewline && !strings.HasSuffix(formatted, "\n") {
+	if opts.InsertFinalNewline && !strings.HasSuffix(formatted, "\n") && lexMap[len(sql)] == linter.LexCode {
 		formatted += "\n"
 	}
 
 	return formatted
+}
+
+// trimCodeSpace trims the white space around a line that begins in code: leading white
+// space, and trailing white space as far as it is code or the tail of a -- comment
+// (lineMap holds the lexical class of every byte of the line). White space that ends the
+// line inside a string literal, quoted identifier or block comment is kept.
+func trimCodeSpace(line string, lineMap []linter.LexClass) string {
+	start := len(line) - len(strings.TrimLeftFunc(line, unicode.IsSpace))
+	end := len(line)
+	for end > start {
+		r, size := utf8.DecodeLastRuneInString(line[start:end])
+		if !unicode.IsSpace(r) {
+			break
+		}
+		if c := lineMap[end-size]; c != linter.LexCode && c != linter.LexLineComment {
+			break
+		}
+		end -= size
+	}
+	return line[start:end]
 }
 
 // SQL keyword documentation
